@@ -466,6 +466,73 @@ class NonLinear(NotComparable):
 
 
 # ----------------------------------------------------------------------------
+# differentiation of normal forms (product / power / chain rule; exp, log, sin, cos)
+# ----------------------------------------------------------------------------
+def occurs(p, atom, skip=None):
+    """does `atom` occur anywhere in p (exponents, opaque sums, function arguments), not counting
+    occurrences inside the atom `skip`"""
+    def in_key(key):
+        for m, _ in key:
+            for a, ek in m:
+                if in_atom(a) or in_key(ek):
+                    return True
+        return False
+
+    def in_atom(a):
+        if skip is not None and a == skip:
+            return False
+        if a == atom:
+            return True
+        if a[0] == "s":
+            return in_key(a[1])
+        if a[0] == "f":
+            return any(in_key(k) for k in a[2])
+        return False
+
+    return in_key(p.key)
+
+
+def diff_atom(a, v):
+    if a == v:
+        return ONE
+    k = a[0]
+    if k in ("n", "#", "pi"):
+        return ZERO
+    if k == "s":
+        return diff(from_key(a[1]), v)
+    if k == "f":
+        args = [from_key(x) for x in a[2]]
+        if not any(occurs(x, v) for x in args):
+            return ZERO
+        if a[1] == "exp" and len(args) == 1:
+            return Poly.atom(a) * diff(args[0], v)
+        if a[1] == "log" and len(args) == 1:
+            return diff(args[0], v) / args[0]
+        if a[1] == "sin" and len(args) == 1:
+            return Poly.atom(("f", "cos", a[2])) * diff(args[0], v)
+        if a[1] == "cos" and len(args) == 1:
+            return -(Poly.atom(("f", "sin", a[2])) * diff(args[0], v))
+        raise NotComparable("derivative of %s(...) with respect to %s" % (a[1], show_atom(v)))
+    raise NotComparable("derivative of atom %r" % (a,))
+
+
+def diff(p, v):
+    """d p / d v for an atom v (a name, or an opaque atom treated as the independent variable)"""
+    res = ZERO
+    for m, c in p.terms.items():
+        for i, (a, ek) in enumerate(m):
+            e = from_key(ek)
+            if occurs(e, v):
+                raise NotComparable("%s occurs in an exponent" % show_atom(v))
+            da = diff_atom(a, v)
+            if da.is_zero():
+                continue
+            rest = Poly({tuple(x for j, x in enumerate(m) if j != i): c})
+            res = res + rest * e * Poly.atom(a).pow(e - ONE) * da
+    return res
+
+
+# ----------------------------------------------------------------------------
 # expression / straight-line evaluator
 # ----------------------------------------------------------------------------
 class Unknown:
